@@ -188,6 +188,16 @@ def _pair(draw, tier):
             sel_map = [sel_map[i] for i in order]
         elif rw == "domorder":
             var["doms"] = [list(draw(st.permutations(d))) for d in var["doms"]]
+    if chance(draw, 1, 4):
+        # both formulations are preceded by earlier queries over the same variables that contain comparison leaves of the
+        # formulation as the SAME objects (small = x.a < 3; first = an(entity(x, or_(small, red))); then and_(small, heavy)
+        # in one formulation, and_(heavy, small) in the other)
+        from ..strategies import Ctx, earlier_queries_sharing_comparisons
+        for side in (base, var):
+            e = earlier_queries_sharing_comparisons(draw, Ctx(_cfg(tier), side["ents"], len(side["vars"])), side["cond"])
+            if e:
+                side["earlier_queries_sharing_comparisons"] = e
+                side["all_queries_built_before_any_is_evaluated"] = False
     return {"base": base, "variant": var, "sel_map": sel_map, "rewrites": names}
 
 
@@ -203,7 +213,8 @@ def check(case) -> Outcome:
     changed = json.dumps(base, sort_keys=True) != json.dumps(var, sort_keys=True)
     nontrivial = changed and n_sat > 0
     classes = ["rw_" + r for r in sorted(set(case["rewrites"]))] + [f for f in feats if f in ("vars1", "vars2", "vars3",
-                                                                                             "or_diff_vars", "not")]
+                                                                                             "or_diff_vars", "not",
+                                                                                             "comparison_objects_used_in_earlier_queries")]
     try:
         got_b, _ = run_query(base, objs, times=2)
     except Exception as e:
